@@ -52,8 +52,8 @@ func c04GenIdent(rt *rapid.T, label string, small bool) string {
 }
 
 func TestC04(t *testing.T) {
-	V.Rule("lab: rapid state machines over 1-12 concurrent dialogs per history on services with 2-6 UDP (and one TCP) backends: initial INVITE (UDP or TCP ingress) -> lands on some backend; that backend answers 100 / 18x with To-tag / 2xx / 4xx-6xx with To-tag from its configured address (UDP socket or the proxy's TCP connection); in-dialog ACK, BYE (never answered), re-INVITE, UPDATE, INFO, PRACK, MESSAGE, REFER, OPTIONS, NOTIFY, SUBSCRIBE in both directions (From/To swapped) from any user agent, plain or decorated (display names, URI parameters, compact names); backend-issued SUBSCRIBE answered by the user agent (Expires 3600 / 60 / 0 / absent), the first NOTIFY optionally sent right behind the 2xx from the same socket, refresh and un-subscribe (Expires: 0) by the backend, then NOTIFY in that dialog; unrelated out-of-dialog requests advancing the rotation in between; stray requests with both tags of an unknown dialog; one service instance with a dialog timeout of 2 s and pauses of 60-220 ms in its histories, where a pin younger than the timeout must survive every expiry sweep (older ones are don't-cares). a fault history (backend-outage): a dialog pinned to the TCP backend, the backend's listener closed and its connections reset, 0-3 in-dialog requests (they may reach nobody, never another backend), the backend listening again, 1-3 in-dialog requests (each at the pinned backend). Identifiers from small alphabets (tags containing '-', equal From and To URIs, tel:/urn: identities) or long ones. Oracle: model pins; a pinned in-dialog request must arrive at the pinned backend and at no other endpoint (FIFO barrier), unpinned/stray ones at exactly one backend. non-trivial = pinned in-dialog request for which the rotation alone would have picked another backend; distinct by (dialog shape, method, direction)")
-	V.Require("pinned tcp backend down and up again", "CSeq written with more than one blank or a tab before the method", "NOTIFY right behind the 2xx of a backend-issued SUBSCRIBE", "short timeout: pinned request after a pause", "pinned request while rotation points elsewhere", "direction: callee->service", "direction: caller->service", "method:ACK", "method:BYE", "method:INVITE", "method:UPDATE", "method:NOTIFY", "method:SUBSCRIBE", "pin by backend-issued SUBSCRIBE", "SUBSCRIBE answered with Expires: 0", "equal From and To URIs", "tag contains '-'", "unpinned dialog (only 100 so far)", "stray in-dialog request", "tcp backend pinned", "pin by non-2xx final with To-tag")
+	V.Rule("lab: rapid state machines over 1-12 concurrent dialogs per history on services with 2-6 UDP (and one TCP) backends: initial INVITE (UDP or TCP ingress) -> lands on some backend; that backend answers 100 / 18x with To-tag / 2xx / 4xx-6xx with To-tag from its configured address (UDP socket or the proxy's TCP connection); in-dialog ACK, BYE (never answered), re-INVITE, UPDATE, INFO, PRACK, MESSAGE, REFER, OPTIONS, NOTIFY, SUBSCRIBE in both directions (From/To swapped) from any user agent, plain or decorated (display names, URI parameters, compact names); backend-issued SUBSCRIBE answered by the user agent (Expires 3600 / 60 / 0 / absent), the first NOTIFY optionally sent right behind the 2xx from the same socket, refresh and un-subscribe (Expires: 0) by the backend, then NOTIFY in that dialog; unrelated out-of-dialog requests advancing the rotation in between; stray requests with both tags of an unknown dialog; one service instance with a dialog timeout of 2 s and pauses of 60-220 ms in its histories, where a pin younger than the timeout must survive every expiry sweep (older ones are don't-cares). a fault history (backend-outage): a dialog pinned to the TCP backend, the backend's listener closed and its connections reset, 0-3 in-dialog requests (they may reach nobody, never another backend), the backend listening again, 1-3 in-dialog requests (each at the pinned backend). a resolution history (pool-flap): a dialog pinned to a member of a resolved TCP pool, whose address then leaves the pool and may join it again while the backend itself keeps listening - the dialog's requests still reach it. Identifiers from small alphabets (tags containing '-', equal From and To URIs, tel:/urn: identities) or long ones. Oracle: model pins; a pinned in-dialog request must arrive at the pinned backend and at no other endpoint (FIFO barrier), unpinned/stray ones at exactly one backend. non-trivial = pinned in-dialog request for which the rotation alone would have picked another backend; distinct by (dialog shape, method, direction)")
+	V.Require("the pinned backend's address left the resolved pool", "pinned tcp backend down and up again", "CSeq written with more than one blank or a tab before the method", "NOTIFY right behind the 2xx of a backend-issued SUBSCRIBE", "short timeout: pinned request after a pause", "pinned request while rotation points elsewhere", "direction: callee->service", "direction: caller->service", "method:ACK", "method:BYE", "method:INVITE", "method:UPDATE", "method:NOTIFY", "method:SUBSCRIBE", "pin by backend-issued SUBSCRIBE", "SUBSCRIBE answered with Expires: 0", "equal From and To URIs", "tag contains '-'", "unpinned dialog (only 100 so far)", "stray in-dialog request", "tcp backend pinned", "pin by non-2xx final with To-tag")
 	// the last instance runs with a dialog timeout of 2 s: its expiry sweep runs
 	// every 2 s under the histories, which sometimes pause; a pin younger than
 	// the timeout must survive every sweep (older ones are don't-cares)
@@ -78,6 +78,28 @@ func TestC04(t *testing.T) {
 	}
 	inMethods := []string{"ACK", "BYE", "INVITE", "UPDATE", "INFO", "PRACK", "MESSAGE", "REFER", "OPTIONS", "NOTIFY", "SUBSCRIBE"}
 
+	// the address of the pinned backend leaves the resolved pool (and joins again)
+	fsvc, err := newStdSvc(stdVariant{DynPool: true})
+	if err != nil {
+		V.HarnessError(t, "cannot start lab instance: %v", err)
+	}
+	rcheck(t, "pool-flap", V.N(10, 120), func(rt *rapid.T) {
+		obs, ok, err := fsvc.poolFlap(rt, t.Name()+"/pool-flap")
+		if _, lost := err.(labLost); lost {
+			failf(rt, "%v\nhistory: %s", err, obs)
+		} else if err != nil {
+			V.HarnessError(rt, "%v", err)
+		}
+		if !ok {
+			return
+		}
+		V.Class("the pinned backend's address left the resolved pool")
+		V.NonTrivial("flap|" + obs.String())
+		V.SampleEvery(10, func() any { return obs })
+		if f := outageSticky(obs); f != "" {
+			failf(rt, "%s", f)
+		}
+	})
 	// a fault history: the pinned TCP backend goes away and comes back
 	rcheck(t, "backend-outage", V.N(12, 150), func(rt *rapid.T) {
 		s := svcs[1]
